@@ -297,9 +297,15 @@ int dl_header(CURL *curl, zckDL *dl, char *url, int fail_no_ranges,
 
     if(!zck_read_lead(zck))
         return 0;
+    /* Reading the lead may consume more than the lead itself (the digest can
+     * be shorter than the minimum read), so remember where the library's read
+     * position is and go back there once the header has been downloaded */
+    off_t read_pos = lseek(zck_get_fd(zck), 0, SEEK_CUR);
     start = zck_get_lead_length(zck);
     if(!dl_bytes(&dl_ctx, url, zck_get_header_length(zck) - start,
                  start, &buffer_len, log_level))
+        return 0;
+    if(read_pos == -1 || lseek(zck_get_fd(zck), read_pos, SEEK_SET) == -1)
         return 0;
     if(!zck_read_header(zck))
         return 0;
